@@ -1013,9 +1013,15 @@ class SpecifierSet(BaseSpecifier):
         # filter method for each one, this will act as a logical AND amongst
         # each specifier.
         if self._specs:
-            for spec in self._specs:
-                iterable = spec.filter(iterable, prereleases=bool(prereleases))
-            return iter(iterable)
+            # One pass over the items: a chain of generators, one per specifier,
+            # recurses as deep as the set is large.
+            allow = bool(prereleases)
+            specs = tuple(self._specs)
+            return (
+                item
+                for item in iterable
+                if all(spec.contains(item, prereleases=allow) for spec in specs)
+            )
         # If we do not have any specifiers, then we need to have a rough filter
         # which will filter out any pre-releases, unless there are no final
         # releases.
